@@ -19,6 +19,9 @@ import (
 )
 
 func init() {
+	mutant(&Mutant{Name: "c17-style-is-a-block", Property: "C17", File: "html/table.go",
+		Old: "\tStyle:      rawTag,", New: "\tStyle:      rawTag | blockTag,",
+		Rule: "R17.htmltraits", Construct: "html.tagMap[Style]"})
 	mutant(&Mutant{Name: "c17-colour-keyword-for-translucent-hex", Property: "C17", File: "css/css.go",
 		Old: "\t\tif len(data) == 9 && data[7] == data[8] {\n\t\t\tif data[7] == 'f' {\n\t\t\t\tdata = data[:7]\n", New: "\t\tif len(data) == 9 && data[7] == data[8] {\n\t\t\tif data[7] != '0' {\n\t\t\t\tdata = data[:7]\n",
 		Rule: "R17.colorkey", Construct: "css.minifyColor/ShortenColorHex look-up"})
@@ -477,7 +480,7 @@ func (c *Ctx) traitBit(rule string, pk *packages.Package, name string) int64 {
 
 func (c *Ctx) ruleHTMLTraits() {
 	const rule = "R17.htmltraits"
-	c.R.Rule(rule, "html.tagMap / html.attrMap trait bits against the HTML Living Standard: rawTag ⊆ raw-text, escapable-raw-text and generic-raw-text elements ∪ {svg, math}; blockTag ⊆ elements rendered as block / list-item / table part / line break or not rendered; omitPTag ⊆ elements whose start tag implies </p>; keepPTag ⊇ {a audio del ins map noscript video}; objectTag ⊇ the elements rendered as an atomic inline box (audio button canvas embed iframe img input meter object progress select svg textarea video); booleanAttr ⊆ boolean attributes; urlAttr ⊆ URL-valued attributes; trimAttr ∩ attributes whose white space is significant (text, regular expressions, code) = ∅; every raw text element of the lexer in which a parser decodes no references has rawTag")
+	c.R.Rule(rule, "html.tagMap / html.attrMap trait bits against the HTML Living Standard: rawTag ⊆ raw-text, escapable-raw-text and generic-raw-text elements ∪ {svg, math}; blockTag ⊆ elements rendered as block / list-item / table part / line break, or confined to the head (unrendered elements that may stand between words — script, style, template, noscript — are not block: white space on both sides of them collapses to one space, it does not vanish); omitPTag ⊆ elements whose start tag implies </p>; keepPTag ⊇ {a audio del ins map noscript video}; objectTag ⊇ the elements rendered as an atomic inline box (audio button canvas embed iframe img input meter object progress select svg textarea video); booleanAttr ⊆ boolean attributes; urlAttr ⊆ URL-valued attributes; trimAttr ∩ attributes whose white space is significant (text, regular expressions, code) = ∅; every raw text element of the lexer in which a parser decodes no references has rawTag")
 	h := c.loadHash(rule, "html")
 	m, pk := c.tableMap(rule, "html", "tagMap")
 	if m != nil && h != nil {
@@ -493,7 +496,7 @@ func (c *Ctx) ruleHTMLTraits() {
 				bad = append(bad, "rawTag: <"+name+"> is not a raw text element; its content would be written unparsed")
 			}
 			if tv&block != 0 && !ref.HTMLBlockLike[name] {
-				bad = append(bad, "blockTag: <"+name+"> is not block-level, a table part, a line break or unrendered (HTML rendering section); whitespace next to it is significant")
+				bad = append(bad, "blockTag: <"+name+"> is not block-level, a table part or a line break (HTML rendering section; an unrendered element between two words does not separate them either): white space next to it is significant")
 			}
 			if tv&omitP != 0 && !ref.HTMLPClosers[name] {
 				bad = append(bad, "omitPTag: a <"+name+"> start tag does not close an open p element; omitting </p> before it changes the tree")
